@@ -179,9 +179,39 @@ def run(prop, repo, seed):
         table.append(dict(variant=name, kind="preserving", outcome=out, detail=detail))
         if out != base_out:
             broken.append(f"behaviour-preserving variant '{name}' changed the verdict to {out}: {detail}")
+    # independently seeded changes that this property's check is on record as catching (seeded/<id>/meta.json): still caught?
+    import json, os, shutil, subprocess, tempfile
+    seeded_dir = os.path.join(core.VERIF, "seeded")
+    n_seed = 0
+    if os.path.isdir(seeded_dir) and repo.root and os.path.isdir(os.path.join(repo.root, "forsys")):
+        for sid in sorted(os.listdir(seeded_dir)):
+            mp, pp = os.path.join(seeded_dir, sid, "meta.json"), os.path.join(seeded_dir, sid, "patch.diff")
+            if not (os.path.isfile(mp) and os.path.isfile(pp)):
+                continue
+            try:
+                meta = json.load(open(mp))
+            except Exception:
+                continue
+            if prop not in meta.get("detected_by", []):
+                continue
+            tmp = tempfile.mkdtemp(prefix="fsv_seed.")
+            try:
+                shutil.copytree(os.path.join(repo.root, "forsys"), os.path.join(tmp, "forsys"), ignore=shutil.ignore_patterns("__pycache__"))
+                subprocess.run(["git", "init", "-q", "."], cwd=tmp, stdout=subprocess.DEVNULL, stderr=subprocess.DEVNULL)
+                r = subprocess.run(["git", "apply", "--whitespace=nowarn", pp], cwd=tmp, stdout=subprocess.DEVNULL, stderr=subprocess.DEVNULL)
+                if r.returncode != 0:
+                    table.append(dict(variant=f"seeded change {sid}", kind="seeded", outcome="not-applicable (patch does not apply to this tree)"))
+                    continue
+                out, detail = run_variant(prop, Repo.load(tmp))
+                n_seed += 1
+                table.append(dict(variant=f"seeded change {sid}: {str(meta.get('title', ''))[:100]}", kind="seeded", outcome=out, detail=detail))
+                if out != "violation":
+                    broken.append(f"seeded change {sid}, on record as caught by {prop}, is no longer reported ({out}: {detail})")
+            finally:
+                shutil.rmtree(tmp, ignore_errors=True)
     from . import sym
     sym._cache.clear()
-    extra = dict(selftest=dict(variants=len(table), applied=n_applied,
+    extra = dict(selftest=dict(seeded_changes_rechecked=n_seed, variants=len(table), applied=n_applied,
                                killed=sum(1 for t in table if t["kind"] == "breaking" and t.get("outcome") == "violation"),
                                table=table))
     if broken:
@@ -194,7 +224,7 @@ if __name__ == "__main__":
     repo = Repo.load()
     code, extra, msgs = run(prop, repo, 0)
     for t in extra["selftest"]["table"]:
-        print(f"{t['kind']:10s} {t['outcome'][:12]:12s} {t['variant']}  {t.get('detail','')[:150]}")
+        print(f"{t['kind']:10s} {t['outcome'][:12]:12s} {t['variant'][:110]}  {t.get('detail','')[:150]}")
     for m in msgs:
         print(m)
     sys.exit(code)
